@@ -119,12 +119,13 @@ def run_driver(exe, mode, lines, timeout, budget=0):
 
 # ------------------------------------------------------------------------------------------ TLC runs
 class Gen:
-    def __init__(self, label, module, cfg, sim=None, depth=None, xss=None, workers=1):
+    def __init__(self, label, module, cfg, sim=None, depth=None, xss=None, workers=1, static=False):
         self.label, self.module, self.cfg, self.sim, self.depth, self.xss, self.workers = label, module, cfg, sim, depth, xss, workers
+        self.static = static       # every case is an initial state (no actions): vacuity is checked on the emitted classes instead
         self.r = None; self.cases = []
 
 def run_gen(g, seed):
-    r = common.tlc(g.module, cfg=g.cfg, workers=g.workers, simulate=g.sim, depth=g.depth, xss=g.xss, coverage=(g.sim is None),
+    r = common.tlc(g.module, cfg=g.cfg, workers=g.workers, simulate=g.sim, depth=g.depth, xss=g.xss, coverage=(g.sim is None and not g.static),
                    seed=(seed if g.sim else None), timeout=1500, xmx="3g")
     if r.rc != 0:
         raise common.Infra("%s/%s: an invariant of the REFERENCE failed inside TLC (spec bug, not a code verdict): %s\n%s"
@@ -140,8 +141,12 @@ def run_gen(g, seed):
         if len(cases) != r.distinct:
             raise common.Infra("%s/%s: corpus emission lost cases: %d printed vs %d distinct" % (g.module, g.cfg, len(cases), r.distinct))
         for act, (taken, _) in r.coverage.items():
-            if taken == 0 and act not in ("Chop", "Action"):
+            if taken == 0 and act not in ("Chop", "Action") and not g.static:
                 raise common.Infra("%s/%s: action %s never taken (vacuous generator)" % (g.module, g.cfg, act))
+    if g.static:       # vacuity on the emitted classes: both kinds of case, every position relative to a length rule
+        pos = {c["why"].rsplit("/", 1)[-1] for c in cases if "why" in c}
+        if not set(RULE_POS) <= pos or {c.get("kind") for c in cases} != {"pkt", "pw"}:
+            raise common.Infra("%s/%s: vacuous generator: rule positions %s, kinds %s" % (g.module, g.cfg, sorted(pos), {c.get("kind") for c in cases}))
     g.r = r; g.cases = cases
     return g
 
@@ -178,6 +183,16 @@ def mk_rad(c):
     out = [("rad %s 0" % hx, {"op": "rad0", "shape": c["why"], "c": c})]
     if not c["must_err"]:
         out += [("rad %s %d" % (hx, ph), {"op": "rad%d" % ph, "shape": c["why"], "c": c}) for ph in (1, 2, 3, 4, 5)]
+    return out
+RULE_POS = ("empty", "below-min", "min", "inside", "max", "above-max", "off-step")
+def mk_rad_attr(c):
+    """HpRadiusAttr: a packet whose last attribute sits at an edge of its type's length rule, or a direct password decode"""
+    if c["kind"] == "pw":
+        v = {"inplace": 0, "sep": 1, "sep+1": 2, "sep-1": 3}[c["variant"]]
+        return [("rad_pw %s %d %d" % (b(c), v, c["cap"]), {"op": "rad_pw", "shape": "%s:%s" % (c["why"], c["variant"]), "c": slim(c)})]
+    hx = b(c); c = slim(c)
+    out = [("rad %s 0" % hx, {"op": "rad0", "shape": c["why"], "c": c})]
+    out += [("rad %s %d" % (hx, ph), {"op": "rad%d" % ph, "shape": c["why"], "c": c}) for ph in (1, 2, 3, 4, 5, 6, 7)]
     return out
 def mk_simple(op):
     def f(c): return [("%s %s" % (op, b(c)), {"op": op, "shape": c["why"], "c": slim(c)})]
@@ -228,6 +243,8 @@ def cmp_case(meta, f):
             if [I(f, "qd"), I(f, "an"), I(f, "ns"), I(f, "ar"), I(f, "msz")] != c["offs"]: return ("dns_msg_info_get", "wrong-result")
     elif op == "rad0":
         if meta["c"]["must_err"] and I(f, "rc") == 0: return ("radius_pkt_chk", "accepts-malformed")
+    elif op == "rad_pw":
+        if I(f, "rc") == 0 and I(f, "out") > meta["c"]["max_out"]: return ("radius_pkt_attr_password_decode", "SPAN(buf_size_ret)")
     elif op == "dhcp":
         if meta["c"]["must_refuse"] and I(f, "rc") == 0: return ("dhcp4_hdr_check", "accepts-malformed")
     elif op == "rtp":
@@ -252,6 +269,7 @@ def plan(ctx):
         (Gen("text", "HpText", "HpText%s.cfg" % T, workers=(2 if q else 4)), mk_text),
         (Gen("dns-msg", "HpDnsMsgGen", "HpDnsMsgGen%s.cfg" % T, xss="64m", workers=(1 if q else 4)), mk_dns_msg),
         (Gen("radius", "HpRadius", "HpRadius%s.cfg" % T, workers=(1 if q else 4)), mk_rad),
+        (Gen("radius-attr-rules", "HpRadiusAttr", "HpRadiusAttr%s.cfg" % T, workers=1, static=True), mk_rad_attr),
         (Gen("dns-name-chain", "HpDnsNameGen", "HpDnsNameGen_chain.cfg", xss="64m"), mk_dns_name),
         (Gen("dhcp4", "HpDhcp4", "HpDhcp4%s.cfg" % T), mk_simple("dhcp")),
         (Gen("rtp", "HpRtp", "HpRtp%s.cfg" % T, workers=(1 if q else 2)), mk_simple("rtp")),
@@ -314,7 +332,8 @@ def run(ctx):
         st = per_gen.setdefault(g.label, {"cases": 0, "crashing": 0, "accepted": 0})
         for i, (ln, meta) in enumerate(zip(lines, metas)):
             st["cases"] += 1
-            if meta["shape"] not in TRIVIAL: tot["nontriv"] += 1
+            if meta["shape"] not in TRIVIAL and meta["shape"].rsplit("/", 1)[-1].split(":")[0] not in ("min", "inside", "max"):
+                tot["nontriv"] += 1      # (an attribute whose length its type allows is not hostile)
             crashed = any(results[bm][i][0] == "X" for bm in modes)
             for bm in modes:
                 r = results[bm][i]; bname = "%s/%s" % bm
